@@ -8,7 +8,7 @@ From SZ Require Import Base.Values Sync.Nodes Base.MiniPy.
 From SZ Require Sync.NodeSem2.
 From SZ Require Import Gen.KN_accumulate Gen.KN_map Gen.KN_filter Gen.KN_starmap Gen.KN_pluck Gen.KN_union Gen.KN_Stream.
 From SZ Require Import Gen.KN_flatten Gen.KN_partition Gen.KN_sliding_window Gen.KN_unique Gen.KN_collect Gen.KN_slice.
-From SZ Require Import Gen.KN_combine_latest Gen.KN_zip_latest.
+From SZ Require Import Gen.KN_combine_latest Gen.KN_zip_latest Gen.KN_partition_unique.
 From SZ Require Import Sync.Pipeline.
 Import ListNotations.
 Close Scope Z_scope.
@@ -523,3 +523,148 @@ Qed.
 Theorem bridge_update_zip_latest s p x m : p < length (st_last s) ->
   option_map strip (gen_update_zip_latest s p x m) = option_map strip (update KZipLatest s p x m).
 Proof. intros H. apply weaken_strip, bridge_run_zip_latest, H. Qed.
+
+(* ---- partition_unique: modulo empty releases (`if replaced:` / `elif metadata:` in the source); invariant of the
+        reachable states: every entry holds exactly one value and the keys are distinct ------------------------------ *)
+Definition pu_single (e : val * (list val * md)) : Prop := exists v, fst (snd e) = [v].
+Definition pu_inv (K : list (val * (list val * md))) : Prop := Forall pu_single K /\ NoDup (map fst K).
+
+Lemma assoc_get_map {B C} (g : B -> C) y (K : list (val * B)) :
+  assoc_get y (map (fun e => (fst e, g (snd e))) K) = option_map g (assoc_get y K).
+Proof. induction K as [|[k b] t IH]; cbn; [reflexivity|]. destruct (val_eqb y k); [reflexivity | exact IH]. Qed.
+Lemma assoc_remove_map {B C} (g : B -> C) y (K : list (val * B)) :
+  assoc_remove y (map (fun e => (fst e, g (snd e))) K) = map (fun e => (fst e, g (snd e))) (assoc_remove y K).
+Proof. induction K as [|[k b] t IH]; cbn; [reflexivity|]. destruct (val_eqb y k); cbn; [reflexivity | rewrite IH; reflexivity]. Qed.
+Lemma assoc_set_absent {B} y (v : B) l : assoc_get y l = None -> assoc_set y v l = l ++ [(y, v)].
+Proof.
+  induction l as [|[k b] t IH]; cbn; [reflexivity|]. destruct (val_eqb y k); [discriminate|]. intros H. rewrite IH by exact H. reflexivity.
+Qed.
+Lemma assoc_get_In {B} y (l : list (val * B)) b : assoc_get y l = Some b -> In y (map fst l).
+Proof.
+  induction l as [|[k b'] t IH]; cbn; [discriminate|]. destruct (val_eqb y k) eqn:E.
+  - intros _. left. apply NodeSem2.val_eqb_spec in E. congruence.
+  - intros H. right. apply IH, H.
+Qed.
+Lemma assoc_get_remove {B} y (l : list (val * B)) : NoDup (map fst l) -> assoc_get y (assoc_remove y l) = None.
+Proof.
+  induction l as [|[k b] t IH]; cbn; [reflexivity|]. intros H. inversion H as [|? ? Hn Hd]; subst.
+  destruct (val_eqb y k) eqn:E; cbn.
+  - apply NodeSem2.val_eqb_spec in E. subst k. destruct (assoc_get y t) eqn:G; [|reflexivity].
+    exfalso. apply Hn. eapply assoc_get_In, G.
+  - rewrite E. apply IH, Hd.
+Qed.
+Lemma pu_roundtrip K : Forall pu_single K -> map pu_join (combine (map pu_fb K) (map pu_fm K)) = K.
+Proof.
+  induction 1 as [|[k [vs md0]] t [v Hv] Ht IH]; cbn; [reflexivity|]. cbn in Hv. subst vs. rewrite IH. reflexivity.
+Qed.
+Lemma pu_vals K : Forall pu_single K -> map snd (map pu_fb K) = flat_map (fun e => fst (snd e)) K.
+Proof. induction 1 as [|[k [vs md0]] t [v Hv] Ht IH]; cbn; [reflexivity|]. cbn in Hv. subst vs. rewrite IH. reflexivity. Qed.
+Lemma pu_mds K : flatten_md (filter truthy_md (map snd (map pu_fm K))) = flat_map (fun e => snd (snd e)) K.
+Proof.
+  unfold flatten_md. induction K as [|[k [vs md0]] t IH]; cbn; [reflexivity|].
+  destruct md0 as [|i md0]; cbn; rewrite IH; reflexivity.
+Qed.
+Lemma pu_single_snoc K y x m : Forall pu_single K -> Forall pu_single (K ++ [(y, ([x], m))]).
+Proof. intros H. apply Forall_app. split; [exact H|]. constructor; [exists x; reflexivity | constructor]. Qed.
+Lemma Forall_assoc_remove {B} (P : val * B -> Prop) y l : Forall P l -> Forall P (assoc_remove y l).
+Proof. induction 1 as [|[k b] t Hk Ht IH]; cbn; [constructor|]. destruct (val_eqb y k); [exact Ht | constructor; assumption]. Qed.
+
+Ltac pu := repeat (progress (py; cbn [pu_buf pu_mbuf]; rewrite ?bind_bind, ?bind_rd, ?bind_ret)).
+Ltac fin_pu SB SM RB RM GB GM :=
+    repeat (progress (pu; rewrite ?RB, ?RM, ?GB, ?GM; rewrite ?SB, ?SM by assumption;
+                      rewrite ?map_length, ?pu_mds; rewrite ?pu_vals, ?pu_roundtrip by assumption)).
+
+Theorem bridge_run_partition_unique n key kl s p x m : pu_inv (st_keyed s) ->
+  strip_r (gen_run_partition_unique n key kl s p x m) = strip_r (of_option (update (KPartUnique n key kl) s p x m)).
+Proof.
+  intros [I1 I2]. unfold gen_run_partition_unique, gen_body_partition_unique. cbn [update].
+  unfold partition_unique_load, partition_unique__buffer, partition_unique__buffer_set, partition_unique__metadata_buffer,
+    partition_unique__metadata_buffer_set, partition_unique__buffer_pop, partition_unique__metadata_buffer_pop,
+    partition_unique__buffer_setitem, partition_unique__metadata_buffer_setitem, partition_unique__buffer_contains,
+    partition_unique__buffer_values, partition_unique__metadata_buffer_values.
+  destruct s as [acc cnt det K win seen ports last]. cbn [st_keyed] in *.
+  set (y := key x).
+  assert (GB : forall K0, assoc_get y (map pu_fb K0) = option_map (fun b => hd VNone (fst b)) (assoc_get y K0))
+    by (intros; apply (assoc_get_map (fun b => hd VNone (fst b)))).
+  assert (GM : forall K0, assoc_get y (map pu_fm K0) = option_map (fun b => snd b) (assoc_get y K0))
+    by (intros; apply (assoc_get_map (fun b => snd b))).
+  assert (RB : forall K0, assoc_remove y (map pu_fb K0) = map pu_fb (assoc_remove y K0))
+    by (intros; apply (assoc_remove_map (fun b => hd VNone (fst b)))).
+  assert (RM : forall K0, assoc_remove y (map pu_fm K0) = map pu_fm (assoc_remove y K0))
+    by (intros; apply (assoc_remove_map (fun b => snd b))).
+  assert (SB : forall K0, assoc_get y K0 = None -> assoc_set y x (map pu_fb K0) = map pu_fb (K0 ++ [(y, ([x], m))])).
+  { intros K0 H. rewrite assoc_set_absent by (rewrite GB, H; reflexivity). rewrite map_app. reflexivity. }
+  assert (SM : forall K0, assoc_get y K0 = None -> assoc_set y m (map pu_fm K0) = map pu_fm (K0 ++ [(y, ([x], m))])).
+  { intros K0 H. rewrite assoc_set_absent by (rewrite GM, H; reflexivity). rewrite map_app. reflexivity. }
+  assert (N1 : assoc_get y (assoc_remove y K) = None) by (apply assoc_get_remove, I2).
+  assert (I1r : Forall pu_single (assoc_remove y K)) by (apply Forall_assoc_remove, I1).
+  assert (I1a : Forall pu_single (assoc_remove y K ++ [(y, ([x], m))])) by (apply pu_single_snoc, I1r).
+  assert (I1b : Forall pu_single (K ++ [(y, ([x], m))])) by (apply pu_single_snoc, I1).
+  destruct kl.
+  - (* keep = 'last' *)
+    pu. rewrite GM. destruct (assoc_get y K) as [[ovs om]|] eqn:G; cbn [option_map snd truthy_optmd].
+    + destruct om as [|i om]; fin_pu SB SM RB RM GB GM;
+        (destruct (length (assoc_remove y K ++ [(y, ([x], m))]) =? n); fin_pu SB SM RB RM GB GM;
+         unfold partition_unique_store; fin_pu SB SM RB RM GB GM; reflexivity).
+    + fin_pu SB SM RB RM GB GM;
+        (destruct (length (assoc_remove y K ++ [(y, ([x], m))]) =? n); fin_pu SB SM RB RM GB GM;
+         unfold partition_unique_store; fin_pu SB SM RB RM GB GM; reflexivity).
+  - (* keep = 'first' *)
+    pu. rewrite GB. destruct (assoc_get y K) as [[ovs om]|] eqn:G; cbn [option_map is_none negb].
+    + destruct m as [|i m]; fin_pu SB SM RB RM GB GM;
+        (destruct (length K =? n); fin_pu SB SM RB RM GB GM;
+         unfold partition_unique_store; fin_pu SB SM RB RM GB GM; reflexivity).
+    + fin_pu SB SM RB RM GB GM;
+        (destruct (length (K ++ [(y, ([x], m))]) =? n); fin_pu SB SM RB RM GB GM;
+         unfold partition_unique_store; fin_pu SB SM RB RM GB GM; reflexivity).
+Qed.
+
+Theorem bridge_update_partition_unique n key kl s p x m : pu_inv (st_keyed s) ->
+  option_map strip (gen_update_partition_unique n key kl s p x m) = option_map strip (update (KPartUnique n key kl) s p x m).
+Proof. intros H. apply weaken_strip, bridge_run_partition_unique, H. Qed.
+(* the invariant holds initially and is preserved by the model's update *)
+Lemma pu_inv_init n key kl nups : pu_inv (st_keyed (init_state (KPartUnique n key kl) nups)).
+Proof. split; constructor. Qed.
+
+Lemma In_assoc_get {B} y (l : list (val * B)) : In y (map fst l) -> assoc_get y l <> None.
+Proof.
+  induction l as [|[k b] t IH]; cbn; [tauto|]. intros [E|H].
+  - subst k. rewrite NodeSem2.val_eqb_refl. discriminate.
+  - destruct (val_eqb y k); [discriminate | apply IH, H].
+Qed.
+Lemma In_assoc_remove {B} y z (l : list (val * B)) : In z (map fst (assoc_remove y l)) -> In z (map fst l).
+Proof.
+  induction l as [|[k b] t IH]; cbn; [tauto|]. destruct (val_eqb y k); cbn; [tauto|]. intros [E|H]; [left; exact E | right; apply IH, H].
+Qed.
+Lemma NoDup_assoc_remove {B} y (l : list (val * B)) : NoDup (map fst l) -> NoDup (map fst (assoc_remove y l)).
+Proof.
+  induction l as [|[k b] t IH]; cbn; [constructor|]. intros H. inversion H as [|? ? Hn Hd]; subst.
+  destruct (val_eqb y k); cbn; [exact Hd|]. constructor; [|apply IH, Hd]. intros X. apply Hn. eapply In_assoc_remove, X.
+Qed.
+Lemma NoDup_snoc (l : list val) y : NoDup l -> ~ In y l -> NoDup (l ++ [y]).
+Proof.
+  intros H Hn. induction H as [|a l Ha Hl IH]; cbn; [constructor; [tauto|constructor]|].
+  constructor.
+  - rewrite in_app_iff. cbn. intros [X|[X|[]]]; [tauto | subst; apply Hn; left; reflexivity].
+  - apply IH. intros X. apply Hn. right. exact X.
+Qed.
+Theorem pu_inv_preserved n key kl s p x m acts s' : pu_inv (st_keyed s) ->
+  update (KPartUnique n key kl) s p x m = Some acts -> In (ASet s') acts -> pu_inv (st_keyed s').
+Proof.
+  intros [I1 I2]. cbn [update]. set (y := key x).
+  assert (Hnil : pu_inv []) by (split; constructor).
+  assert (Ha : pu_inv (assoc_remove y (st_keyed s) ++ [(y, ([x], m))])).
+  { split; [apply pu_single_snoc, Forall_assoc_remove, I1|]. rewrite map_app. apply NoDup_snoc; [apply NoDup_assoc_remove, I2|].
+    intros X. apply In_assoc_get in X. apply X, assoc_get_remove, I2. }
+  assert (Hb : assoc_get y (st_keyed s) = None -> pu_inv (st_keyed s ++ [(y, ([x], m))])).
+  { intros G. split; [apply pu_single_snoc, I1|]. rewrite map_app. apply NoDup_snoc; [exact I2|].
+    intros X. apply In_assoc_get in X. apply X, G. }
+  assert (Hs : pu_inv (st_keyed s)) by (split; assumption).
+  destruct kl.
+  - destruct (assoc_get y (st_keyed s)) as [[ovs om]|];
+      (destruct (length _ =? n); intros E; injection E as <-; cbn; intros H;
+       repeat (destruct H as [H|H]; [try discriminate; injection H as <-; cbn [st_keyed set_keyed]; assumption|]); destruct H).
+  - destruct (assoc_get y (st_keyed s)) as [[ovs om]|] eqn:G;
+      (destruct (length _ =? n); intros E; injection E as <-; cbn; intros H;
+       repeat (destruct H as [H|H]; [try discriminate; injection H as <-; cbn [st_keyed set_keyed]; auto|]); destruct H).
+Qed.
